@@ -13,7 +13,7 @@ RULE = ("exhaustive: attempts 1..A x every outcome sequence of that length over 
         "4 classes, thorough: A=6 and 5 classes. Oracle: a reference loop written from the statement gives the number "
         "of inner invocations, the sleeps and the outcome (first ok result by identity / final attempt's exception "
         "object by identity); arguments must reach the inner method unchanged each time. Invalid configurations must "
-        "raise at construction; neighbouring valid ones must not. Wrapped instances: three RetryingClients alive at once around different instances of one class whose operations are instance attributes (name sets differing from instance to instance), every offered operation called through every wrapper in both orders - the same reference decides, and dir() of the wrapper lists the operation. Non-trivial: >=2 invocations were needed or a filter "
+        "raise at construction; neighbouring valid ones must not. The same table is run over pymemcache's own exception hierarchy (MemcacheError, MemcacheClientError, MemcacheIllegalInputError, MemcacheServerError, MemcacheUnexpectedCloseError, MemcacheUnknownCommandError) and socket.timeout / ConnectionResetError / KeyError: no class is treated specially. Wrapped instances: three RetryingClients alive at once around different instances of one class whose operations are instance attributes (name sets differing from instance to instance), every offered operation called through every wrapper in both orders - the same reference decides, and dir() of the wrapper lists the operation. Non-trivial: >=2 invocations were needed or a filter "
         "stopped a retry.")
 MANIFEST = {
     "category": "exploration",
@@ -340,6 +340,45 @@ def check_history(case):
     return True, ["history", "calls=%d" % len(seqs)]
 
 
+# ---- the library's own exception classes and the ones sockets raise ---------------------------------------------------
+
+def _lib_classes():
+    import socket
+    from pymemcache import exceptions as X
+    return [X.MemcacheError, X.MemcacheClientError, X.MemcacheIllegalInputError, X.MemcacheServerError, X.MemcacheUnexpectedCloseError,
+            X.MemcacheUnknownCommandError, socket.timeout, ConnectionResetError, KeyError]
+
+
+def lib_cases(tier, seed):
+    n = len(_lib_classes())
+    rfs = [(), (0,), (1,), (2,), (3,), (6, 7), (0, 8)]
+    dns = [(), (2,), (4,), (8,), (1,), (5, 6)]
+    pairs = [(rf, dn) for rf in rfs for dn in dns if not set(rf) & set(dn)]
+    for attempts in (2, 3) if tier == "quick" else (2, 3, 4):
+        seqs = set()
+        for full in itertools.product(range(0, n + 1), repeat=attempts):
+            if attempts == 4 and (sum(full) % 3):
+                continue
+            if 0 in full:
+                full = full[:full.index(0) + 1]
+            seqs.add(full)
+        for seq in sorted(seqs):
+            for pi, (rf, dn) in enumerate(pairs):
+                yield (attempts, seq, rf, dn, pi % 3, (0, 0.25)[(pi + len(seq)) % 2], (pi + attempts) % 3)
+
+
+def check_lib(case):
+    """the same decision table over pymemcache's own exception hierarchy and socket errors: no class is special"""
+    global CLASSES
+    saved = CLASSES
+    CLASSES = _lib_classes()
+    try:
+        nt, labels = check(case)
+    finally:
+        CLASSES = saved
+    return nt, ["library-exceptions"] + labels
+
+
 class DynInner:
     """a wrapped client whose operations are attributes of the INSTANCE (a stub, a namespace object, a client given an
     extra per-instance helper): which names exist differs from one instance of the class to the next"""
@@ -411,6 +450,7 @@ def check_instances(case):
 
 
 PARTS = [
+    Part("library-exception-classes", "enum", check_lib, cases=lib_cases, exhaustive=True, distinct_by_construction=True),
     Part("wrapped-instances", "enum", check_instances, cases=instance_cases, exhaustive=True),
     Part("decision-table", "enum", check, cases=cases, exhaustive=True, distinct_by_construction=True),
     Part("configurations", "enum", check_config, cases=config_cases, shards={"quick": 1, "thorough": 1}, exhaustive=True),
